@@ -57,6 +57,11 @@ pub(super) fn end_stream_decision(stream: &Stream) -> EndStreamAction {
         } else {
             EndStreamAction::ForwardUnterminated
         }
+    } else if stream.back.is_error() && stream.back.consumed {
+        // Part of the response already reached the client (the backend failed
+        // mid-message and the read path demoted the kawa to Error): a default
+        // answer can no longer replace it, the only honest outcome is an abort.
+        EndStreamAction::ForwardUnterminated
     } else if stream.front.consumed {
         EndStreamAction::SendDefault(502)
     } else {
